@@ -16,6 +16,7 @@ import (
 	"github.com/drand/kyber"
 	"github.com/drand/kyber/share"
 	"github.com/drand/kyber/share/dkg"
+	"golang.org/x/crypto/sha3"
 )
 
 // SchemeNames lists the five schemes in a fixed order.
@@ -190,9 +191,41 @@ func (n *Net) Reshare(r ReshareOpts) *Net {
 	return m
 }
 
-// Digest returns the message signed for (round, prev) under the net's scheme.
+// Digest returns the message signed for (round, prev) under the net's scheme, computed by the harness's own
+// reference (RefDigest), not by the code under test.
 func (n *Net) Digest(round uint64, prev []byte) []byte {
+	return RefDigest(n.Scheme.Name, round, prev)
+}
+
+// RepoDigest is the digest as computed by the code under test.
+func (n *Net) RepoDigest(round uint64, prev []byte) []byte {
 	return n.Scheme.DigestBeacon(&hb{round, prev})
+}
+
+// RefDigest is the harness's own statement of what each scheme signs: chained = sha256(prev || round_be64),
+// unchained = sha256(round_be64), bn254 = keccak256(round_be64).
+func RefDigest(scheme string, round uint64, prev []byte) []byte {
+	var rb [8]byte
+	binary.BigEndian.PutUint64(rb[:], round)
+	switch scheme {
+	case crypto.DefaultSchemeID:
+		h := sha256.New()
+		_, _ = h.Write(prev)
+		_, _ = h.Write(rb[:])
+		return h.Sum(nil)
+	case crypto.BN254UnchainedOnG1SchemeID:
+		h := sha3.NewLegacyKeccak256()
+		_, _ = h.Write(rb[:])
+		return h.Sum(nil)
+	default:
+		h := sha256.Sum256(rb[:])
+		return h[:]
+	}
+}
+
+// VerifyRef verifies a beacon with the reference digest and kyber's threshold scheme under pk.
+func VerifyRef(sch *crypto.Scheme, pk kyber.Point, round uint64, sig, prev []byte) error {
+	return sch.ThresholdScheme.VerifyRecovered(pk, RefDigest(sch.Name, round, prev), sig)
 }
 
 type hb struct {
